@@ -4,19 +4,21 @@ From Coq Require Import List NArith ZArith Bool Arith Lia.
 From Muscle Require Import Gen.Consts Refl.Base Refl.BaseProofs Refl.Tree Refl.TreeProofs Refl.Matcher Refl.MatcherProofs
      Refl.Traverse Refl.TraverseFold Refl.TraverseSpec Refl.Session Refl.Server Refl.ServerProofs Refl.Mirror Refl.MirrorBase
      Refl.MirrorServer Refl.MirrorNotify Refl.MirrorSem Refl.MirrorSteps Refl.MirrorHandlers Refl.MirrorSubscribe Refl.MirrorFetch
-     Refl.MirrorSubJ Refl.MirrorFrame Refl.MirrorGet Refl.MirrorQuiet.
+     Refl.MirrorSubJ Refl.MirrorFrame Refl.MirrorGet Refl.MirrorQuiet Refl.MirrorTail.
 Import ListNotations.
 
 Section Cmd.
 Context {M : MatchOps} {L : MatchLaws M}.
 
 (* no quiet flag anywhere in the command *)
-(* what may be quiet: nothing that changes the tree, and not the observer's own SUBSCRIBE: (it would miss the initial
-   values); another session's quiet subscription is nobody else's business.  [own] = the sender is the observer *)
+(* what may be quiet: no change of the tree by another session, and not the observer's own SUBSCRIBE: (it would miss the
+   initial values).  Another session's quiet subscription is nobody else's business, and neither are the observer's own
+   quiet SETDATA / REMOVEDATA: they touch its own subtree only, which its mirror statement leaves out.
+   [own] = the sender is the observer *)
 Fixpoint cmd_loud_for (own : bool) (c : cmd) : bool :=
   match c with
-  | CSetData flags _ => negb (flag_set flags c_SETDATANODE_FLAG_QUIET)
-  | CRemoveData q _ => negb q
+  | CSetData flags _ => own || negb (flag_set flags c_SETDATANODE_FLAG_QUIET)
+  | CRemoveData q _ => own || negb q
   | CSubscribe q _ => negb q || negb own
   | CBatch l => forallb (cmd_loud_for own) l
   | _ => true
@@ -128,6 +130,8 @@ Proof. intros sv sv' H. apply same_sess_for. now apply same_core_sess. Qed.
 Lemma loud_for_of_loud : forall c own, cmd_loud c = true -> cmd_loud_for own c = true.
 Proof.
   induction c using cmd_ind'; intros own Hl; cbn [cmd_loud cmd_loud_for] in *; auto.
+  - rewrite Hl. apply orb_true_r.
+  - rewrite Hl. apply orb_true_r.
   - now rewrite Hl.
   - induction H as [|c l Hc Hl' IH]; [reflexivity|]. cbn [forallb] in *. apply andb_true_iff in Hl as [H1 H2].
     rewrite (Hc own H1), (IH H2). reflexivity.
@@ -168,8 +172,16 @@ Proof.
     destruct (get_session sv b) as [bs|] eqn:Hbs; try (split; assumption); try (rewrite Nat.add_0_r in HB).
   - (* SETDATA *)
     destruct (flag_set f c_SETDATANODE_FLAG_QUIET) eqn:Efl.
-    + (* quiet: only where the observer cannot see *)
-      destruct Hloud as [Hloud|[Hne [so [sb [Hso [Hsb Hhid]]]]]]; [cbn in Hloud; discriminate|].
+    + (* quiet: the observer's own (its own subtree), or where the observer cannot see *)
+      destruct Hloud as [Hloud|[Hne [so [sb [Hso [Hsb Hhid]]]]]].
+      { rewrite orb_false_r in Hloud. apply N.eqb_eq in Hloud. subst b.
+        destruct (set_data_items_frame i sv o f Hpo) as [Hpo' Hs'].
+        split; [|exact Hpo'].
+        destruct (own_set_data_items mir o i sv f (session_dir bs) Hpo) as [HV Hd]; [intros x Hx; congruence|].
+        apply (J_frame_foreign mir sv); auto; [now apply same_sess_for|].
+        intros ss Hss q Hfq. assert (ss = bs) by congruence. subst ss.
+        apply expected_data. apply Hd. destruct (is_prefix (session_dir bs) q) eqn:Ep; auto.
+        apply own_node_of_prefix in Ep. congruence. }
       assert (sb = bs) by congruence. subst sb.
       destruct (set_data_items_frame i sv b f Hpo) as [Hpo' _].
       split; [|exact Hpo'].
@@ -178,7 +190,16 @@ Proof.
     + apply (set_data_items_J mir B i sv b f o); auto.
   - (* REMOVEDATA *)
     destruct q.
-    + destruct Hloud as [Hloud|[Hne [so [sb [Hso [Hsb Hhid]]]]]]; [cbn in Hloud; discriminate|].
+    + destruct Hloud as [Hloud|[Hne [so [sb [Hso [Hsb Hhid]]]]]].
+      { rewrite orb_false_r in Hloud. apply N.eqb_eq in Hloud. subst b.
+        pose proof (find_session_some _ _ _ Hbs) as [_ Hid].
+        destruct (do_remove_data_frame fx sv bs k true Hpo) as [Hpo' Hs'].
+        split; [|exact Hpo'].
+        destruct (own_do_remove_data fx mir o sv bs k true Hpo Hid) as [HV Hd].
+        apply (J_frame_foreign mir sv); auto; [now apply same_sess_for|].
+        intros ss Hss q Hfq. assert (ss = bs) by congruence. subst ss.
+        apply expected_data. apply Hd. destruct (is_prefix (session_dir bs) q) eqn:Ep; auto.
+        apply own_node_of_prefix in Ep. congruence. }
       assert (sb = bs) by congruence. subst sb.
       destruct (do_remove_data_frame fx sv bs k true Hpo) as [Hpo' _].
       split; [|exact Hpo'].
